@@ -106,6 +106,7 @@ class Popen:
         finally:
             set_spawning_popen(None)
 
+        parent_r = parent_w = child_r = child_w = None
         try:
             parent_r, child_w = os.pipe()
             child_r, parent_w = os.pipe()
@@ -135,12 +136,16 @@ class Popen:
             if not hasattr(fp, method):
                 method = "getvalue"
             with os.fdopen(parent_w, "wb") as f:
+                # the file object owns the descriptor from now on
+                parent_w = None
                 f.write(getattr(fp, method)())
             self.pid = pid
         finally:
             if parent_r is not None:
                 util.Finalize(self, os.close, (parent_r,))
-            for fd in (child_r, child_w):
+            # parent_w is still set only if the launch failed before the
+            # payload could be written: do not leak it.
+            for fd in (child_r, child_w, parent_w):
                 if fd is not None:
                     os.close(fd)
 
